@@ -100,9 +100,11 @@ impl TxBatchBuilder {
                 return Err(JsError::from_str("Unable to build transaction batch"));
             }
 
-            current_tx_proposal.add_last_ada_to_last_output()?;
+            // fix the fee first (it already accounts for the last output receiving the leftover),
+            // then hand out what is left after outputs and that fee
             self.asset_groups
                 .set_min_ada_for_tx(&mut current_tx_proposal)?;
+            current_tx_proposal.add_last_ada_to_last_output()?;
             self.tx_proposals.push(current_tx_proposal);
         }
 
